@@ -697,51 +697,51 @@ func (h *harness) defaultBody(method, path string) body {
 var margins = []time.Duration{30 * time.Minute, auth.VerifExtendThreshold + 4*second, auth.VerifExtendThreshold - 4*second, 60 * second, 4 * second,
 	-4 * second, -60 * second, -30 * time.Minute, -2 * time.Hour, -100 * time.Hour}
 
-// G1: every path x method under one cookie state
+// G1: every path x method under one cookie state (one history per state and path)
 func (h *harness) gridCookieStates() {
 	extra := []string{"/api/nope", "/api", "/api/", "/", "/api/auth", "/api/config/nope"}
 	states := []string{"absent", "random", "loggedout", "expired-4s", "expired-30m", "expired-2h-collected", "live", "live-near-expiry"}
 	for _, st := range states {
-		h.begin()
-		cookie := -1
-		prepare := func() {
-			switch st {
-			case "absent":
-				cookie = -1
-			case "random":
-				cookie = h.randomSid()
-			case "loggedout":
-				cookie = h.mustLogin()
-				if cookie >= 0 {
-					h.do(req{method: "POST", path: "/api/auth/logout", cookie: cookie, body: body{kind: "none"}})
-				}
-			case "expired-4s":
-				cookie = h.mustLogin()
-				if cookie >= 0 {
-					h.ageTo(cookie, -4*second)
-				}
-			case "expired-30m":
-				cookie = h.mustLogin()
-				if cookie >= 0 {
-					h.ageTo(cookie, -30*time.Minute)
-				}
-			case "expired-2h-collected":
-				cookie = h.mustLogin()
-				if cookie >= 0 {
-					h.ageTo(cookie, -2*time.Hour)
-					h.gc()
-				}
-			case "live":
-				cookie = h.mustLogin()
-			case "live-near-expiry":
-				cookie = h.mustLogin()
-				if cookie >= 0 {
-					h.ageTo(cookie, 5*time.Minute)
+		for _, p := range append(append([]string{}, h.paths...), extra...) {
+			h.begin()
+			cookie := -1
+			prepare := func() {
+				switch st {
+				case "absent":
+					cookie = -1
+				case "random":
+					cookie = h.randomSid()
+				case "loggedout":
+					cookie = h.mustLogin()
+					if cookie >= 0 {
+						h.do(req{method: "POST", path: "/api/auth/logout", cookie: cookie, body: body{kind: "none"}})
+					}
+				case "expired-4s":
+					cookie = h.mustLogin()
+					if cookie >= 0 {
+						h.ageTo(cookie, -4*second)
+					}
+				case "expired-30m":
+					cookie = h.mustLogin()
+					if cookie >= 0 {
+						h.ageTo(cookie, -30*time.Minute)
+					}
+				case "expired-2h-collected":
+					cookie = h.mustLogin()
+					if cookie >= 0 {
+						h.ageTo(cookie, -2*time.Hour)
+						h.gc()
+					}
+				case "live":
+					cookie = h.mustLogin()
+				case "live-near-expiry":
+					cookie = h.mustLogin()
+					if cookie >= 0 {
+						h.ageTo(cookie, 5*time.Minute)
+					}
 				}
 			}
-		}
-		prepare()
-		for _, p := range append(append([]string{}, h.paths...), extra...) {
+			prepare()
 			for _, m := range allMethods {
 				if strings.HasSuffix(p, "/log/stream") && strings.HasPrefix(st, "live") && (m == "GET" || m == "HEAD") && !thorough() && h.r.Chance(50) {
 					continue // the SSE stream answers only after its first tick; keep a sample
@@ -755,29 +755,29 @@ func (h *harness) gridCookieStates() {
 					prepare() // the grid itself logged the session out: take a new one
 				}
 			}
+			h.end("grid-cookie-" + st)
 		}
-		h.end("grid-cookie-" + st)
 	}
 }
 
 var origins = []string{"", "http://evil.example", "null", "OWN"}
 var sites = []string{"", "same-origin", "same-site", "none", "cross-site", "Same-Origin", "cross-origin", "x"}
 
-// G2: Origin x Sec-Fetch-Site x method x cookie on a few routes
+// G2: Origin x Sec-Fetch-Site x method x cookie on a few routes (one history per cookie, origin and site)
 func (h *harness) gridHarden() {
 	paths := []string{"/api/version", "/api/auth/logout", "/api/auth/login", "/api/config", "/api/nope"}
 	methods := []string{"GET", "POST", "PATCH", "OPTIONS", "HEAD"}
 	for _, live := range []bool{false, true} {
-		h.begin()
-		cookie := -1
-		if live {
-			cookie = h.mustLogin()
-		}
 		for _, o := range origins {
 			if o == "OWN" {
 				o = h.base
 			}
 			for _, s := range sites {
+				h.begin()
+				cookie := -1
+				if live {
+					cookie = h.mustLogin()
+				}
 				for _, m := range methods {
 					for pi, p := range paths {
 						if !thorough() && pi > 0 && !h.r.Chance(25) {
@@ -787,16 +787,15 @@ func (h *harness) gridHarden() {
 						if p == "/api/auth/login" && m == "POST" && h.r.Bool() {
 							b = body{kind: "login", user: "admin", pw: h.rowToken(1)}
 						}
-						_, ns := h.do(req{method: m, path: p, cookie: cookie, origin: o, site: s, body: b})
+						h.do(req{method: m, path: p, cookie: cookie, origin: o, site: s, body: b})
 						if live && cookie >= 0 && h.state[cookie] != "live" {
 							cookie = h.mustLogin()
 						}
-						_ = ns
 					}
 				}
+				h.end(fmt.Sprintf("grid-harden-live=%v", live))
 			}
 		}
-		h.end(fmt.Sprintf("grid-harden-live=%v", live))
 	}
 }
 
@@ -1072,7 +1071,7 @@ func main() {
 	h.gridHarden()
 	h.gridMargins()
 	h.gridLogin()
-	n := 60
+	n := 150
 	if thorough() {
 		n = 1500
 	}
